@@ -147,6 +147,56 @@ Definition lookup_assoc {A} (x : string) (l : list (string * A)) : option A :=
 Definition akind_attr (k : akind) : string :=
   match k with AKFloat => "value_float" | AKInt => "value_int" | AKBool => "value_int" end.
 
+(* ------------------------------------------------------------------ autocast.cast_inputs: the plan
+
+   tvs = type variable of each formal input ("" = none) and whether the last one is variadic;
+   flags = for each actual argument: None (omitted) | Some true (a polymorphic constant) | Some false.
+   First pass: every type variable is bound to the last non-constant argument using it.
+   Second pass: a constant argument whose type variable is bound is cast like that argument.
+   Result: for each argument, the index of the argument it is CastLike'd to. *)
+Definition typevar_at (tvs : list string * bool) (i : nat) : option string :=
+  match nth_error (fst tvs) i with
+  | Some tv => Some tv
+  | None => if snd tvs then Some (last (fst tvs) "") else None
+  end.
+
+Fixpoint plan_bindings (tvs : list string * bool) (i : nat) (flags : list (option bool)) (acc : list (string * nat))
+  : option (list (string * nat)) :=
+  match flags with
+  | [] => Some acc
+  | fl :: t =>
+    match typevar_at tvs i with
+    | None => None
+    | Some tv =>
+      plan_bindings tvs (S i) t
+        (match fl with
+         | Some false => if String.eqb tv "" then acc else (tv, i) :: acc
+         | _ => acc
+         end)
+    end
+  end.
+
+Fixpoint plan_casts (tvs : list string * bool) (bnd : list (string * nat)) (i : nat) (flags : list (option bool))
+  : list (option nat) :=
+  match flags with
+  | [] => []
+  | fl :: t =>
+    (match fl, typevar_at tvs i with
+     | Some true, Some tv => if String.eqb tv "" then None else lookup_assoc tv bnd
+     | _, _ => None
+     end) :: plan_casts tvs bnd (S i) t
+  end.
+
+Definition cast_plan (tvs : list string * bool) (flags : list (option bool)) : option (list (option nat)) :=
+  match plan_bindings tvs 0 flags [] with
+  | Some bnd => Some (plan_casts tvs bnd 0 flags)
+  | None => None
+  end.
+
+(* `x % c` gets fmod=1 exactly when the right operand is a constant float (Gen.ScriptTables.converter_mod_rule) *)
+Definition binop_attrs (op : string) (b : expr) : list (string * attrv) :=
+  if String.eqb op "Mod" then match b with ELit (LFloat _) => [("fmod", AInt 1)] | _ => [] end else [].
+
 Section Translate.
   Variable globals : list (string * lit).          (* module-level constants usable as values *)
   Variable cic : expr -> option bool.              (* AstAnalyzer.constant_if_condition *)
@@ -190,58 +240,32 @@ Section Translate.
               end
     end.
 
-  (* autocast.static_cast_inputs / cast_inputs *)
-  Definition typevar_at (tvs : list string * bool) (i : nat) : option string :=
-    match nth_error (fst tvs) i with
-    | Some tv => Some tv
-    | None => if snd tvs then Some (last (fst tvs) "") else None
-    end.
-
-  Fixpoint tv_bindings (tvs : list string * bool) (castable : list string) (i : nat) (args : list (option vname))
-           (acc : list (string * vname)) : option (list (string * vname)) :=
-    match args with
-    | [] => Some acc
-    | a :: t =>
-      match typevar_at tvs i with
-      | None => None                                   (* more actual than formal parameters *)
-      | Some tv =>
-        let acc' := match a with
-                    | Some v => if negb (String.eqb tv "") && negb (mem v castable) then (tv, v) :: acc else acc
-                    | None => acc
-                    end in
-        tv_bindings tvs castable (S i) t acc'
-      end
-    end.
-
-  Fixpoint cast_args (tvs : list string * bool) (bnd : list (string * vname)) (i : nat) (args : list (option vname))
+  (* autocast.static_cast_inputs = cast_inputs instantiated statically; the plan (which argument is
+     CastLike'd to which) is shared with the Python reading (Script/PySem.v) *)
+  Fixpoint apply_plan (args : list (option vname)) (plan : list (option nat)) (all : list (option vname))
     : M (list (option vname)) :=
-    match args with
-    | [] => ret []
-    | a :: t =>
-      a' <- match a with
-            | None => ret None
-            | Some v =>
-              c <- is_castable v ;;
-              match typevar_at tvs i with
-              | Some tv =>
-                match (if c && negb (String.eqb tv "") then lookup_assoc tv bnd else None) with
-                | Some y => r <- uniq (v ++ "_cast") ;; emit (node1 "CastLike" [Some v; Some y] r []) ;;; ret (Some r)
-                | None => ret (Some v)
-                end
-              | None => ret (Some v)
+    match args, plan with
+    | a :: t, p :: pt =>
+      a' <- match a, p with
+            | Some v, Some j =>
+              match nth j all None with
+              | Some y => r <- uniq (v ++ "_cast") ;; emit (node1 "CastLike" [Some v; Some y] r []) ;;; ret (Some r)
+              | None => ret a
               end
+            | _, _ => ret a
             end ;;
-      t' <- cast_args tvs bnd (S i) t ;;
+      t' <- apply_plan t pt all ;;
       ret (a' :: t')
+    | _, _ => ret args
     end.
 
   Definition static_cast (op : string) (args : list (option vname)) : M (list (option vname)) :=
     match lookup_assoc op op_typevars with
     | None => ret args                                   (* no signature: no casts *)
     | Some tvs =>
-      fun st => match tv_bindings tvs (ts_castable st) 0 args [] with
-                | None => None
-                | Some bnd => cast_args tvs bnd 0 args st     (* the first binding found is the last one made *)
+      fun st => match cast_plan tvs (map (option_map (fun v => mem v (ts_castable st))) args) with
+                | None => None                           (* more actual than formal parameters *)
+                | Some plan => apply_plan args plan args st
                 end
     end.
 
@@ -266,10 +290,7 @@ Section Translate.
       match lookup_assoc op primop_map with
       | None => fail
       | Some opname =>
-        let attrs := match op, b with
-                     | "Mod", ELit (LFloat _) => [("fmod", AInt 1)]
-                     | _, _ => []
-                     end in
+        let attrs := binop_attrs op b in
         l <- tr_expr sc None a ;;
         r <- tr_expr sc None b ;;
         args <- static_cast opname [Some l; Some r] ;;
